@@ -49,7 +49,14 @@ def small_case(rng, rule=None):
     e = cd.gen_election(rng, maxc=5, maxb=6)
     o = cd.gen_options(rng, rule=rule)
     if o.get('arithmetic') == 'rational' and o['rule'] in ('meek', 'warren'): o['arithmetic'] = 'guarded'
-    return cd.render_blt(e), o
+    if o['rule'] in ('meek', 'warren') and rng.random() < 0.5: cd.add_equal_ranks(rng, e)      # ballots whose rank groups the profile owns
+    blt = cd.render_blt(e)
+    if rng.random() < 0.3:
+        # options embedded in the ballot file (the list is owned by the profile object); the caller passes only the rule
+        emb = rng.choice(['arithmetic=fixed precision=3', 'precision=5', 'arithmetic=guarded precision=4 guard=2', 'display=3', 'omega=3', 'defeat_batch=none'])
+        lines = blt.split("\n"); lines.insert(1, '[droop %s]' % emb); blt = "\n".join(lines)
+        o = dict(rule=o['rule'])
+    return blt, o
 
 def run(chk, ctx):
     quick = ctx['tier'] == 'quick'
